@@ -24,6 +24,9 @@ const (
 	SendOK = iota
 	SendBlock
 	SendFail
+	// SendHold: the write is accepted but takes until Release to return, and it returns success even if
+	// the connection was lost meanwhile (the kernel took the bytes before the reset was noticed)
+	SendHold
 )
 
 type Pipe struct {
@@ -61,6 +64,12 @@ func (p *Pipe) Send(m *mangos.Message) error {
 		}
 	case SendFail:
 		return mangos.ErrClosed
+	case SendHold:
+		<-p.release
+		if p.Closed {
+			m.Free() // lost in flight
+			return nil
+		}
 	}
 	p.Sent = append(p.Sent, Rec{H: append([]byte{}, m.Header...), B: append([]byte{}, m.Body...), At: verif.Now()})
 	if p.Peer != nil && !p.Peer.Closed {
